@@ -200,14 +200,17 @@ Fixpoint unwind_to_try (fuel : nat) (c : ctx) : ctx * option err :=
   end.
 
 Definition catchable (e : err) : bool :=
-  match e with EStop => false | EPanicActive => false | _ => true end.
+  match e with EStop => false | EPanicActive => false | ESignalDebugger => false | _ => true end.
 
-Definition handle_catch (c : ctx) (e : option err) : ctx * option err :=
+(* pass_signal = true: the code after fix 6274accc (the debugger's line signal is passed through like the
+   panic-in-progress signal); false: the code before it *)
+Definition handle_catch_gen (pass_signal : bool) (c : ctx) (e : option err) : ctx * option err :=
   match e with
   | None => (c, None)
   | Some EStop => (c, None)
   | Some EPanicActive => (c, Some EPanicActive)
   | Some e =>
+      if andb pass_signal (match e with ESignalDebugger => true | _ => false end) then (c, Some e) else
       if negb (c_running c) then (c, Some e) else
       match find_live (c_trys c) with
       | None => (c, Some e)
@@ -225,6 +228,8 @@ Definition handle_catch (c : ctx) (e : option err) : ctx * option err :=
           end
       end
   end.
+Definition handle_catch := handle_catch_gen true.
+Definition handle_catch_old := handle_catch_gen false.
 
 (* ---------------------------------------------------------------- instructions *)
 Definition pop (c : ctx) : option (item * ctx) :=
